@@ -539,6 +539,12 @@ func (fc *FuncCtx) finishReturn(st *State, vals []Val, pos token.Pos) {
 			}
 			st.env[rv] = v
 			st.names[fc.resultName[i]] = v
+			if i == 0 {
+				// the first result is always also reachable as "result" (e.g. a single error result)
+				if _, clash := fc.localsByName["result"]; !clash {
+					st.names["result"] = v
+				}
+			}
 		}
 	}
 	// monitor: deferred unlock re-establishes invariant
